@@ -9,5 +9,5 @@ d=json.loads(s[i:])
 print({k:d[k] for k in ['paths','paths_ok','aborted','outside','reach','obligations','discharged','inconclusive','wall_s','notes','budget_hit']})
 ee=sorted(set(d.get('engine_errors') or []))
 for e in ee[:4]: print('ENGINE-ERROR', e[:1500])
-for v in (d.get('violations') or [])[:3]: print('VIOL', v.get('Msg'), v.get('Kind'), v.get('Ints'), {k:x[:80] for k,x in (v.get('Bytes') or {}).items()})
+for v in (d.get('violations') or [])[:3]: print('VIOL', v.get('msg'), v.get('kind'), v.get('ints'), {k:x[:80] for k,x in (v.get('bytes') or {}).items()})
 "
